@@ -477,12 +477,10 @@ class ZoneAnalysis:
                         and call['args'][1]['k'] in ('copy', 'move') and not call['args'][1]['pl'].get('p'):
                     es = zf.elem_sym_of_iter(call['args'][0])
                     ci = zf.fd._closure_info(call['args'][1]['pl']['l'])
-                    pr = zf.closure_predicate(ci[0], ci[1], es) if (es is not None and ci is not None) else None
-                    if pr is None:
+                    pf = zf.closure_predicate_facts(ci[0], ci[1], es) if (es is not None and ci is not None) else None
+                    if pf is None:
                         return []
-                    op, a, b, neg = pr
-                    tf, ff = zf._cmp_facts(op, a, b)
-                    sets.append(set(tf if neg else ff) | set(zf.facts_at(bi)))
+                    sets.append(set(pf[1]) | set(zf.facts_at(bi)))
                 else:
                     return []
             else:
@@ -525,6 +523,13 @@ class ZoneAnalysis:
             if t['k'] == 'call' and t['dst']['l'] == 0:
                 if wrapped and (t.get('callee') or '').endswith('FromResidual::from_residual'):
                     continue
+                # `opt.ok_or(e)` / `res.map_err(f)` returned as it is: the integer inside is the payload of `opt`
+                if wrapped and (t.get('callee') or '') in ('std::option::Option::<T>::ok_or', 'std::option::Option::<T>::ok_or_else', 'std::result::Result::<T, E>::map_err') \
+                        and t['args'] and t['args'][0]['k'] in ('copy', 'move') and not t['args'][0]['pl'].get('p'):
+                    pt = zf._payload_term({'l': t['args'][0]['pl']['l'], 'p': [{'k': 'downcast', 'v': 1, 'n': 'Some'}, {'k': 'field', 'n': '0', 'adt': 'std::option::Option::Some'}]})
+                    if pt is not None:
+                        rets.append((bi, pt))
+                        continue
                 return []
         if not rets or any(tt is None for _, tt in rets):
             return []
